@@ -128,6 +128,9 @@ def mkInRow (cfg : Config) (asset : String) (acct : String → String → Nat) (
   let fiatFee : Rat := if (optNum cfee).isSome && (optNum ffee).isNone then dmul (ofUnits cfeeV) (ofUnits price) else ofUnits ffeeV
   let fiatNoFee : Rat := match optNum fnf with | some v => ofUnits v | none => dmul (ofUnits cin) (ofUnits price)
   let fiatWithFee : Rat := match optNum fwf with | some v => ofUnits v | none => dadd fiatNoFee fiatFee
+  -- an acquisition with a crypto fee is re-created by the parser with its fiat values passed explicitly: they must not vanish
+  -- (13-decimal comparison), which rejects e.g. a zero-amount staking row that carries a crypto fee
+  ensure (!(decide (0 < cfeeV)) || (gt13 fiatNoFee 0 && gt13 fiatWithFee 0)) "crypto-fee acquisition with zero fiat value"
   pure { tx := { row := r, ts, acct := acct ex ho, typ, price, amount := cin, fiatFee, fiatNoFee, fiatWithFee },
          exch := ex, holder := ho, cryptoFee := cfeeV }
 
